@@ -27,9 +27,11 @@ pub enum Prep {
     Conv(Kind),
     /// ones(n) then and-ed / xor-ed into shape through the operators
     Masked,
+    /// the result of an addition that wraps around 2^n (or not): a += b with a + b = bits (mod 2^n)
+    Summed,
 }
 
-pub const PREPS: [Prep; 9] = [
+pub const PREPS: [Prep; 10] = [
     Prep::Fresh,
     Prep::Spare,
     Prep::Pushed,
@@ -39,6 +41,7 @@ pub const PREPS: [Prep; 9] = [
     Prep::Heap,
     Prep::Conv(Kind::D),
     Prep::Masked,
+    Prep::Summed,
 ];
 
 impl Prep {
@@ -53,6 +56,7 @@ impl Prep {
             Prep::Heap => "heap".into(),
             Prep::Conv(k) => format!("conv:{}", k.name()),
             Prep::Masked => "masked".into(),
+            Prep::Summed => "summed".into(),
         }
     }
     pub fn from_name(s: &str) -> Option<Prep> {
@@ -138,6 +142,22 @@ fn try_make(kind: Kind, bits: &[u8], prep: Prep) -> Option<AnyBv> {
             }
             let src = AnyBv::fresh(from, bits);
             convert_any(&src, kind, false)
+        }
+        Prep::Summed => {
+            if n == 0 || n > 128 {
+                return None;
+            }
+            let mask: u128 = if n == 128 { u128::MAX } else { (1u128 << n) - 1 };
+            let v = bits_int(bits);
+            // half of the time b > v: the sum wraps around 2^n
+            let b: u128 = (if n % 2 == 0 { v.wrapping_add(1 + (n as u128 % 7)) } else { v / 2 + 1 }) & mask & (u64::MAX as u128);
+            let a = v.wrapping_sub(b) & mask;
+            let mut x = AnyBv::fresh(kind, &int_bits(a, n));
+            let o = crate::exec::exec_keep(&mut x, &crate::exec::Y::Int(IntTy::U64, b), "add", "ar", &crate::out::Args::default());
+            if o != crate::out::Out::Unit {
+                return None;
+            }
+            Some(x)
         }
         Prep::Masked => {
             if n == 0 {
